@@ -219,13 +219,18 @@ func (h *dnsCryptHandler) ServeDNS(rw dnscrypt.ResponseWriter, r *dns.Msg) (err 
 
 	nrw := NewNonWriterResponseWriter(rw.LocalAddr(), rw.RemoteAddr())
 	written := h.srv.serveDNSMsg(ctx, r, nrw)
-	if !written {
-		// If there was no response from the handler, return SERVFAIL.
-		return rw.WriteMsg(genErrorResponse(r, dns.RcodeServerFailure))
+
+	var msg *dns.Msg
+	if written {
+		msg = nrw.Msg()
+	} else {
+		// If there was no response from the handler, return SERVFAIL.  It is
+		// normalized like any other response, so that a query with an OPT
+		// record gets one back.
+		msg = genErrorResponse(r, dns.RcodeServerFailure)
 	}
 
 	network := NetworkFromAddr(rw.LocalAddr())
-	msg := nrw.Msg()
 	normalize(network, ProtoDNSCrypt, r, msg, dns.MaxMsgSize)
 
 	return rw.WriteMsg(msg)
